@@ -904,8 +904,682 @@ def correspond(ctx):
     ctx.extra['c06_skipped_unmodelled'] = skipped
 
 
+# ----------------------------------------------------------------------------------------------
+# search: independent record-per-atom oracle, property clauses evaluated on the real objects
+# ----------------------------------------------------------------------------------------------
+
+class ORec:
+    """oracle object: one record (dict key -> tuple of exact cells) per atom; owns its records."""
+
+    def __init__(self, n, meta, recs):
+        self.n = n
+        self.meta = meta          # OrderedDict key -> [cls, trail, width]
+        self.recs = recs
+
+    def clone_rows(self, rows):
+        return ORec(len(rows), OrderedDict((k, list(v)) for k, v in self.meta.items()),
+                    [dict(self.recs[i]) for i in rows])
+
+
+class OSys:
+    def __init__(self, atoms_h, box, symbols, masses):
+        self.atoms_h = atoms_h
+        self.box = box
+        self.symbols = list(symbols)   # as last assigned (spec: getter returns these, padded with None)
+        self.masses = list(masses)
+
+
+def o_cell(cls, x):
+    if cls == 'f':
+        return Fraction(x)
+    if cls == 'i':
+        return int(x)
+    if cls == 'b':
+        return bool(x)
+    return str(x)
+
+
+def o_cast(cls, w, c):
+    """value c (exact cell of any numeric class, or str) stored in a column of class cls."""
+    if cls == 's':
+        return str(c)[:w]
+    if cls == 'f':
+        return Fraction(int(c)) if isinstance(c, bool) else Fraction(c)
+    if cls == 'i':
+        return int(c)          # truncation toward zero for Fractions
+    return bool(c != 0)
+
+
+def o_zero(cls):
+    return {'i': 0, 'f': Fraction(0), 'b': False, 's': ''}[cls]
+
+
+def o_lit_rows(l, n, trail):
+    """rows (tuples) of a literal written to n atoms of trailing shape `trail`: full, scalar, length-1 or
+    single-row forms only (the forms the valid grammar generates)."""
+    w = _prod(trail)
+    cls = l['dt']
+    data = [o_cell(cls, x) for x in l['data']]
+    shape = l['shape']
+    if shape == [n] + trail:
+        return [tuple(data[i * w:(i + 1) * w]) for i in range(n)]
+    if shape == []:
+        return [tuple(data * w) for _ in range(n)]
+    if shape == [1] + trail or shape == trail:
+        return [tuple(data) for _ in range(n)]
+    raise AssertionError(('oracle cannot read literal', shape, n, trail))
+
+
+def o_positions(n, ix):
+    t = ix[0]
+    if t == 'I':
+        return [ix[1] % n]
+    if t == 'S':
+        return list(range(n))[slice(ix[1], ix[2], ix[3])]
+    if t == 'L':
+        return [i % n for i in ix[1]]
+    return [i for i, b in enumerate(ix[1]) if b]
+
+
+def real_rows(arr):
+    k = arr.dtype.kind
+    n = arr.shape[0]
+    flat = arr.reshape(n, -1).tolist() if arr.size else [[] for _ in range(n)]
+    if k == 'f':
+        return [tuple(Fraction(x) for x in r) for r in flat]
+    if k in 'iu':
+        return [tuple(int(x) for x in r) for r in flat]
+    if k == 'b':
+        return [tuple(bool(x) for x in r) for r in flat]
+    return [tuple(str(x) for x in r) for r in flat]
+
+
+class Violation(Exception):
+    def __init__(self, key, what):
+        super().__init__(what)
+        self.key, self.what = key, what
+
+
+def o_natypes(o):
+    return max(int(r['atype'][0]) for r in o.recs)
+
+
+def oracle_apply(op, O, OS):
+    """the specification of one (valid) operation on the record model.  Returns the expected output (or None)
+    and the set of (handle, key) columns written in place."""
+    k = op['op']
+    written = []
+    out = None
+    if k == 'new':
+        n = op.get('natoms')
+        if n is None:
+            n = op['atype']['shape'][0] if op.get('atype') and op['atype']['shape'] else op['pos']['shape'][0]
+        meta = OrderedDict()
+        cols = OrderedDict()
+        at = op.get('atype') or lit('i', [], [1])
+        meta['atype'] = ['i', [], None]
+        cols['atype'] = o_lit_rows(at, n, [])
+        ps = op.get('pos') or lit('f', [1, 3], [0.0, 0.0, 0.0])
+        meta['pos'] = ['f', [3], None]
+        cols['pos'] = o_lit_rows(ps, n, [3])
+        for kk, v in op.get('extra', []):
+            trail = v['shape'][1:] if v['shape'] else []
+            meta[kk] = [v['dt'], trail, v.get('w')]
+            cols[kk] = o_lit_rows(v, n, trail)
+        O['a%d' % op['id']] = ORec(n, meta, [{kk: cols[kk][i] for kk in meta} for i in range(n)])
+    elif k in ('setv', 'pset', 'spset'):
+        h = op['o'] if 'o' in op else OS[op['s']].atoms_h
+        o = O[h]
+        key, v = op['key'], op['val']
+        if op.get('scale'):
+            v = o_rel_to_cart(OS[op['s']].box, v)
+        if key not in o.meta:
+            trail = v['shape'][1:] if v['shape'] else []
+            o.meta[key] = [v['dt'], trail, v.get('w')]
+            rows = o_lit_rows(v, o.n, trail)
+            for i in range(o.n):
+                o.recs[i][key] = rows[i]
+        else:
+            cls, trail, w = o.meta[key]
+            ix = op.get('ix')
+            pos = list(range(o.n)) if ix is None else o_positions(o.n, ix)
+            rows = o_lit_rows(v, len(pos), trail)
+            for p, r in zip(pos, rows):
+                o.recs[p][key] = tuple(o_cast(cls, w, c) for c in r)
+            written.append((h, key))
+    elif k in ('pget', 'spget'):
+        h = op['o'] if 'o' in op else OS[op['s']].atoms_h
+        o = O[h]
+        ix = op.get('ix')
+        pos = list(range(o.n)) if ix is None else o_positions(o.n, ix)
+        out = [o.recs[p][op['key']] for p in pos]
+    elif k in ('geti', 'pgeta', 'spgeta', 'ixget'):
+        h = op['o'] if 'o' in op else OS[op['s']].atoms_h
+        o = O[h]
+        O['a%d' % op['id']] = o.clone_rows(o_positions(o.n, op['ix']))
+        if k == 'ixget':
+            y = OS[op['s']]
+            OS['s%d' % op['id']] = OSys('a%d' % op['id'], y.box, y.symbols, [])
+    elif k == 'dcopy':
+        o = O[op['o']]
+        O['a%d' % op['id']] = o.clone_rows(range(o.n))
+    elif k in ('seti', 'pseta', 'spseta', 'ixset'):
+        if k == 'ixset':
+            h = OS[op['s']].atoms_h
+            src = op['src'][1] if op['src'][0] == 'a' else OS[op['src'][1]].atoms_h
+        else:
+            h = op['o'] if 'o' in op else OS[op['s']].atoms_h
+            src = op['src']
+        o, d = O[h], O[src]
+        ix = op.get('ix')
+        pos = list(range(o.n)) if ix is None else o_positions(o.n, ix)
+        donor = [dict(r) for r in d.recs]       # read the donor before writing (it may be the same object)
+        for j, p in enumerate(pos):
+            for key, (cls, trail, w) in o.meta.items():
+                o.recs[p][key] = tuple(o_cast(cls, w, c) for c in donor[j][key])
+        written.extend((h, key) for key in o.meta)
+    elif k == 'patype':
+        o = O[op['o']]
+        key, v, t = op['key'], op['val'], op.get('t')
+        if t is None:
+            trail = v['shape'][1:]
+            w = _prod(trail)
+            table = [tuple(o_cell(v['dt'], x) for x in v['data'][i * w:(i + 1) * w]) for i in range(v['shape'][0])]
+            rows = [table[int(r['atype'][0]) - 1] for r in o.recs]
+            if key not in o.meta:
+                o.meta[key] = [v['dt'], trail, v.get('w')]
+                for i in range(o.n):
+                    o.recs[i][key] = rows[i]
+            else:
+                cls, _, wd = o.meta[key]
+                for i in range(o.n):
+                    o.recs[i][key] = tuple(o_cast(cls, wd, c) for c in rows[i])
+                written.append((op['o'], key))
+        else:
+            if key not in o.meta:
+                trail = list(v['shape'])
+                o.meta[key] = [v['dt'], trail, v.get('w')]
+                for i in range(o.n):
+                    o.recs[i][key] = tuple([o_zero(v['dt'])] * _prod(trail))
+            cls, trail, wd = o.meta[key]
+            sel = [i for i, r in enumerate(o.recs) if int(r['atype'][0]) == t]   # types before the write
+            row = o_lit_rows(v, 1, trail)[0]
+            for i in sel:
+                o.recs[i][key] = tuple(o_cast(cls, wd, c) for c in row)
+            written.append((op['o'], key))
+    elif k in ('exti', 'exta', 'sext'):
+        if k == 'sext':
+            y = OS[op['s']]
+            h = y.atoms_h
+            val = op['value']
+        else:
+            h = op['o']
+            val = ['i', op['n']] if k == 'exti' else ['a', op['src']]
+        o = O[h]
+        if val[0] == 'i':
+            d = ORec(val[1], OrderedDict([('atype', ['i', [], None]), ('pos', ['f', [3], None])]),
+                     [{'atype': (1,), 'pos': (Fraction(0),) * 3} for _ in range(val[1])])
+        else:
+            d = O[val[1]]
+        nw = o.clone_rows(range(o.n))
+        for key, m in d.meta.items():
+            if key not in nw.meta:
+                nw.meta[key] = list(m)
+                for r in nw.recs:
+                    r[key] = tuple([o_zero(m[0])] * _prod(m[1]))
+        for r in d.recs:
+            rec = {}
+            for key, (cls, trail, w) in nw.meta.items():
+                if key in d.meta:
+                    rec[key] = tuple(o_cast(cls, w, c) for c in r[key])
+                else:
+                    rec[key] = tuple([o_zero(cls)] * _prod(trail))
+            nw.recs.append(rec)
+        nw.n = o.n + d.n
+        if k == 'sext' and op['scale']:
+            b = y.box
+            for j, r in enumerate(d.recs):
+                nw.recs[o.n + j]['pos'] = o_rtc_row(b, r['pos'])
+        O['a%d' % op['id']] = nw
+        if k == 'sext':
+            OS['s%d' % op['id']] = OSys('a%d' % op['id'], y.box,
+                                        op['symbols'] if op.get('symbols') is not None else y.symbols, [])
+    elif k == 'mksys':
+        ms = op.get('masses') or []
+        sy = op['symbols'] if op.get('symbols') is not None else [None] * len(ms)
+        OS['s%d' % op['id']] = OSys(op['o'], [Fraction(x) for x in op['box']], sy, ms)
+    elif k == 'symset':
+        OS[op['s']].symbols = list(op['symbols'])
+    elif k == 'massset':
+        OS[op['s']].masses = list(op['masses'])
+    elif k in ('symget', 'massget', 'snatypes', 'natypes', 'pkeys', 'pbcset'):
+        pass
+    else:
+        raise AssertionError(k)
+    return out, written
+
+
+def o_rtc_row(b, r):
+    """relpos.dot(vects) + origin with Fractions."""
+    return tuple(sum(Fraction(r[i]) * b[3 * i + j] for i in range(3)) + b[9 + j] for j in range(3))
+
+
+def o_rel_to_cart(box, v):
+    data = [Fraction(x) if not isinstance(x, bool) else Fraction(int(x)) for x in v['data']]
+    out = []
+    for i in range(len(data) // 3):
+        out.extend(o_rtc_row(box, data[3 * i:3 * i + 3]))
+    return {'dt': 'f', 'shape': v['shape'], 'data': out}
+
+
+def check_clauses(op, W, O, OS, pre_arrays, out, created):
+    """the property's clauses on the real objects after an operation."""
+    np = _np()
+    k = op['op']
+    for h, a in W.atoms.items():
+        o = O[h]
+        keys = list(a.view.keys())
+        if a.natoms != o.n:
+            raise Violation('natoms', f'{h}: natoms {a.natoms}, record model has {o.n} atoms')
+        if keys != list(o.meta.keys()):
+            raise Violation('keys', f'{h}: property keys {keys}, record model {list(o.meta.keys())}')
+        for key in keys:
+            arr = a.view[key]
+            cls, trail, w = o.meta[key]
+            if not isinstance(arr, np.ndarray) or arr.ndim < 1 or arr.shape[0] != a.natoms:
+                raise Violation('rectangular', f'{h}.{key}: shape {getattr(arr, "shape", None)} with natoms {a.natoms}: '
+                                'not one entry per atom')
+            if list(arr.shape[1:]) != list(trail) or arr_info(arr)[0] != cls:
+                raise Violation('dtype-shape', f'{h}.{key}: dtype/trailing shape {arr.dtype}{arr.shape[1:]}, record model '
+                                f'{cls}{trail}')
+            rows = real_rows(arr)
+            want = [r[key] for r in o.recs]
+            if rows != want:
+                i = next(i for i in range(o.n) if rows[i] != want[i])
+                raise Violation('values:' + k, f'{h}.{key}: row {i} reads {rows[i]} but atom {i} of the record model has '
+                                f'{want[i]} (after {k})')
+            if key == 'atype' and a.natoms > 0 and np.min(arr) < 1:
+                raise Violation('atype<1', f'{h}: atype {arr.tolist()} contains a value < 1 (after {k})')
+            if key not in type(a).__dict__ and getattr(a, key, None) is not arr:
+                raise Violation('mirror', f'{h}.{key}: attribute no longer mirrors view[{key!r}] (after {k})')
+    for h, s in W.syss.items():
+        y = OS[h]
+        try:
+            nt = s.atoms.natypes
+        except ValueError:
+            continue
+        sy, ms = s.symbols, s.masses
+        if len(sy) < nt or len(ms) < nt:
+            raise Violation('padding', f'{h}: natypes {nt} but len(symbols)={len(sy)}, len(masses)={len(ms)} (after {k})')
+        exp = list(y.symbols) + [None] * (len(sy) - len(y.symbols))
+        if list(sy)[:len(exp)] != exp[:len(sy)] and len(sy) >= len(y.symbols):
+            raise Violation('symbols', f'{h}: symbols {sy}, expected {y.symbols} padded with None')
+        expm = [None if m is None else float(m) for m in y.masses]
+        if list(ms)[:len(expm)] != expm:
+            raise Violation('masses', f'{h}: masses {ms}, expected {expm} padded with None')
+    # copies do not alias, operands of copying operations are covered by the value clause above
+    if k in ('pget', 'spget') and out is not None:
+        r = getattr(W, 'last_out', None)
+        if isinstance(r, np.ndarray):
+            for (h, key, arr) in W.live_arrays():
+                if np.shares_memory(r, arr):
+                    raise Violation('alias:prop', f'prop({op["key"]!r}) returned an array sharing memory with {h}.{key}')
+    copying = k in ('pgeta', 'spgeta', 'dcopy', 'exti', 'exta', 'sext') or \
+        (k in ('geti', 'ixget') and op['ix'][0] in ('L', 'K'))
+    if copying:
+        for kind, hname, obj in created:
+            if kind != 'a':
+                continue
+            for key in obj.view:
+                for (h, key2, arr) in pre_arrays:
+                    if np.shares_memory(obj.view[key], arr):
+                        raise Violation('alias:' + k, f'{k}: new object {hname}.{key} shares memory with {h}.{key2}')
+
+
+def resync(W, O, written):
+    """a write changes the written columns (as specified) and whatever shares memory with them (unspecified):
+    the record model re-reads exactly those other columns."""
+    np = _np()
+    for (h, key) in written:
+        if h not in W.atoms:
+            continue
+        warr = W.atoms[h].view[key]
+        for h2, a2 in W.atoms.items():
+            for key2 in a2.view:
+                if (h2, key2) == (h, key):
+                    continue
+                arr = a2.view[key2]
+                if np.shares_memory(warr, arr) and key2 in O[h2].meta and arr.shape[0] == O[h2].n:
+                    rows = real_rows(arr)
+                    for i in range(O[h2].n):
+                        O[h2].recs[i][key2] = rows[i]
+
+
+def gen_valid_lit(rng, cls, trail, k, key=None, allow_row=True, scalar_ok=True):
+    if cls == 's':
+        dt = 's'
+    else:
+        dt = cls if rng.random() < 0.7 else rng.choice(['i', 'f', 'b'])
+    if key == 'atype':
+        dt = rng.choice(['i', 'i', 'f'])
+    c = rng.random()
+    if c < 0.55:
+        shape = [k] + trail
+    elif c < 0.75 and scalar_ok:
+        shape = []
+    elif c < 0.9 or not trail or not allow_row:
+        shape = [1] + trail
+    else:
+        shape = list(trail)
+    return gen_lit(rng, dt, shape, key)
+
+
+def gen_valid_index(rng, n, nonempty=False, unique=True):
+    for _ in range(20):
+        ix = gen_index(rng, n, bad=False)
+        if ix[0] == 'L' and unique and len({i % n for i in ix[1]}) != len(ix[1]):
+            continue
+        if ix[0] == 'S' and ix[3] == 0:
+            continue
+        if nonempty and not o_positions(n, ix):
+            continue
+        return ix
+    return ['S', None, None, None]
+
+
+def gen_valid_op(rng, W, O, OS, k):
+    np = _np()
+    A, S = W.atoms, W.syss
+    if not A or (len(A) < 2 and rng.random() < 0.5) or rng.random() < 0.04:
+        n = rng.choice([1, 2, 3, 4, 5])
+        op = {'op': 'new', 'id': k, 'atype': gen_lit(rng, 'i', [n], 'atype'), 'pos': gen_lit(rng, 'f', [n, 3])}
+        if rng.random() < 0.15:
+            op.pop('pos')
+        elif rng.random() < 0.1:
+            op.pop('atype')
+        extra = []
+        keys = KEYS[:]
+        rng.shuffle(keys)
+        for kk in keys[:rng.choice([0, 1, 2, 2, 3])]:
+            dt = rng.choice(['i', 'f', 'f', 'b', 's'])
+            trail = rng.choice(TRAILS)
+            extra.append([kk, gen_lit(rng, dt, rng.choice([[n] + trail, [n] + trail, [1] + trail]))])
+        op['extra'] = extra
+        return op
+    if len(A) > 6:
+        bound = {id(s.atoms) for s in S.values()}
+        free = [h for h, a in A.items() if id(a) not in bound]
+        if free:
+            return {'op': 'drop', 'o': rng.choice(free)}
+        return {'op': 'drop', 's': rng.choice(list(S))}
+    h = rng.choice([hh for hh in A if O[hh].n > 0] or list(A))
+    o = O[h]
+    n = o.n
+    if n == 0:
+        return {'op': 'pkeys', 'o': h}
+    kinds = ['setv'] * 8 + ['pget'] * 5 + ['pgeta'] * 3 + ['pset'] * 9 + ['pseta'] * 3 + ['geti'] * 7 + ['seti'] * 5 \
+        + ['patype'] * 5 + ['exti'] * 3 + ['exta'] * 5 + ['dcopy'] * 2 + ['mksys'] * 4
+    if S:
+        kinds += ['symget', 'symset', 'massget', 'massset', 'snatypes'] * 2 + ['spget', 'spgeta'] + ['spset'] * 4 \
+            + ['sext'] * 6 + ['ixget'] * 4 + ['ixset'] * 3
+    kind = rng.choice(kinds)
+    sh = None
+    if kind in ('symget', 'symset', 'massget', 'massset', 'snatypes', 'spget', 'spgeta', 'spset', 'sext', 'ixget',
+                'ixset'):
+        cands = [x for x in S if O[OS[x].atoms_h].n > 0 and OS[x].atoms_h in A]
+        if not cands:
+            return {'op': 'pkeys', 'o': h}
+        sh = rng.choice(cands)
+        h = OS[sh].atoms_h
+        o = O[h]
+        n = o.n
+    keys = list(o.meta.keys())
+    if kind == 'setv':
+        key = rng.choice(keys + KEYS)
+        if key in o.meta:
+            cls, trail, _ = o.meta[key]
+        else:
+            cls, trail = rng.choice(['i', 'f', 'f', 'b', 's']), rng.choice(TRAILS)
+        # (a scalar assigned to an existing vector-valued column is refused by the code: the scalar is first
+        #  broadcast to (natoms,), which numpy cannot write into (natoms, 3); a clean refusal, not generated here)
+        v = gen_valid_lit(rng, cls, trail, n, key, allow_row=False, scalar_ok=(key not in o.meta or not trail))
+        return {'op': 'setv', 'o': h, 'key': key, 'val': v, 'via': rng.choice(['view', 'attr'])}
+    if kind in ('pget', 'spget'):
+        ix = None if rng.random() < 0.3 else gen_valid_index(rng, n)
+        key = rng.choice(keys)
+        return {'op': 'pget', 'o': h, 'key': key, 'ix': ix} if kind == 'pget' else \
+            {'op': 'spget', 's': sh, 'key': key, 'ix': ix}
+    if kind in ('pgeta', 'spgeta', 'geti', 'ixget'):
+        ix = gen_valid_index(rng, n, nonempty=(kind == 'ixget'), unique=False)
+        d = {'op': kind, 'ix': ix, 'id': k}
+        d['s' if kind in ('spgeta', 'ixget') else 'o'] = sh if kind in ('spgeta', 'ixget') else h
+        return d
+    if kind in ('pset', 'spset'):
+        scale = kind == 'spset' and rng.random() < 0.6
+        if scale:
+            key = rng.choice([kk for kk in keys if o.meta[kk][0] == 'f' and o.meta[kk][1] == [3]])
+        else:
+            key = rng.choice(keys)
+        cls, trail, _ = o.meta[key]
+        if rng.random() < 0.2:
+            ix, cnt = None, n
+        else:
+            ix = gen_valid_index(rng, n)
+            cnt = len(o_positions(n, ix))
+        if ix is not None and ix[0] == 'I':
+            shape = rng.choice([trail, trail, []])
+            dt = cls if cls == 's' or rng.random() < 0.7 else rng.choice(['i', 'f', 'b'])
+            if scale:
+                shape, dt = [3], 'f'
+            v = gen_lit(rng, 'i' if key == 'atype' else dt, shape, key)
+        elif scale:
+            v = gen_lit(rng, rng.choice(['f', 'i']),
+                        rng.choice([[cnt, 3], [cnt, 3], [3], [1, 3]] if ix is not None else [[cnt, 3], [1, 3]]))
+        else:
+            v = gen_valid_lit(rng, cls, trail, cnt, key, allow_row=(ix is not None),
+                              scalar_ok=(ix is not None or not trail))
+            if ix is None and v['shape'] == trail and trail:
+                v = gen_lit(rng, v['dt'], [1] + trail, key)
+            # a 1-D boolean assignment takes values of rank <= 1 only; keep to forms every index kind accepts
+            if ix is not None and ix[0] == 'K' and not trail and len(v['shape']) > 1:
+                v = gen_lit(rng, v['dt'], [], key)
+        if kind == 'pset':
+            return {'op': 'pset', 'o': h, 'key': key, 'ix': ix, 'val': v}
+        return {'op': 'spset', 's': sh, 'key': key, 'ix': ix, 'val': v, 'scale': scale}
+    if kind in ('pseta', 'seti', 'ixset'):
+        def fits(hh):
+            d = O[hh]
+            return set(d.meta) == set(o.meta) and all(
+                d.meta[kk][1] == o.meta[kk][1] and (d.meta[kk][0] == 's') == (o.meta[kk][0] == 's') for kk in o.meta) \
+                and d.n >= 1
+        donors = [hh for hh in A if fits(hh)]
+        if not donors:
+            return {'op': 'pkeys', 'o': h}
+        src = rng.choice(donors)
+        m = O[src].n
+        if m > n:
+            return {'op': 'pkeys', 'o': h}
+        # an index selecting exactly m rows
+        c = rng.random()
+        if c < 0.35:
+            st = rng.randint(0, n - m)
+            ix = ['S', st, st + m, None] if m != 1 or rng.random() < 0.5 else ['I', st if rng.random() < 0.5 else st - n]
+        elif c < 0.7:
+            pool = list(range(n))
+            rng.shuffle(pool)
+            ix = ['L', [i if rng.random() < 0.7 else i - n for i in pool[:m]]]
+        else:
+            pool = list(range(n))
+            rng.shuffle(pool)
+            chosen = set(pool[:m])
+            ix = ['K', [i in chosen for i in range(n)]]
+            ta, da = A[h], A[src]
+            if any(np.shares_memory(ta.view[kk], da.view[kk]) for kk in ta.view):
+                ix = ['L', sorted(chosen)]       # numpy's 1-D boolean assignment is not overlap-safe
+        if m == n and rng.random() < 0.3 and kind == 'pseta':
+            return {'op': 'pseta', 'o': h, 'ix': None, 'src': src}
+        if kind == 'pseta':
+            return {'op': 'pseta', 'o': h, 'ix': ix, 'src': src}
+        if kind == 'seti':
+            return {'op': 'seti', 'o': h, 'ix': ix, 'src': src}
+        return {'op': 'ixset', 's': sh, 'ix': ix, 'src': ['a', src]}
+    if kind == 'patype':
+        nt = o_natypes(o)
+        key = rng.choice(KEYS + [kk for kk in keys if kk != 'pos'])
+        if key in o.meta:
+            cls, trail, _ = o.meta[key]
+        else:
+            cls, trail = rng.choice(['i', 'f', 'f', 'b', 's']), rng.choice(TRAILS)
+        dt = cls if (cls == 's' or rng.random() < 0.8) else rng.choice(['i', 'f', 'b'])
+        if key == 'atype':
+            dt = 'i'
+        if rng.random() < 0.5:
+            v = gen_lit(rng, dt, [nt + rng.choice([0, 0, 1])] + trail, key)
+            return {'op': 'patype', 'o': h, 'key': key, 'val': v, 't': None}
+        if key not in o.meta and trail == [3] and n != 3:
+            trail = []      # zeros_like(value) of a 3-vector is only a per-atom column when natoms == 3
+        if key not in o.meta and trail:
+            trail = []
+        v = gen_lit(rng, dt, trail, key)
+        return {'op': 'patype', 'o': h, 'key': key, 'val': v, 't': rng.randint(1, nt)}
+    if kind == 'exti':
+        return {'op': 'exti', 'o': h, 'n': rng.choice([0, 1, 1, 2, 3]), 'id': k}
+    if kind in ('exta', 'sext'):
+        def fits(hh):
+            d = O[hh]
+            return d.n >= 1 and all(d.meta[kk][1] == o.meta[kk][1] and (d.meta[kk][0] == 's') == (o.meta[kk][0] == 's')
+                                    for kk in d.meta if kk in o.meta)
+        donors = [hh for hh in A if fits(hh)]
+        if kind == 'exta':
+            if not donors:
+                return {'op': 'pkeys', 'o': h}
+            return {'op': 'exta', 'o': h, 'src': rng.choice(donors), 'id': k}
+        scale = rng.random() < 0.5 and bool(donors)
+        if scale or (donors and rng.random() < 0.7):
+            val = ['a', rng.choice(donors)]
+        else:
+            val = ['i', rng.choice([0, 1, 2])]
+        return {'op': 'sext', 's': sh, 'value': val, 'scale': scale,
+                'symbols': gen_syms(rng, 0, 4) if rng.random() < 0.3 else None, 'id': k}
+    if kind == 'dcopy':
+        return {'op': 'dcopy', 'o': h, 'id': k}
+    if kind == 'mksys':
+        nt = o_natypes(o)
+        op = {'op': 'mksys', 'o': h, 'id': k, 'box': gen_box(rng), 'pbc': [rng.random() < 0.5 for _ in range(3)]}
+        if rng.random() < 0.7:
+            op['symbols'] = gen_syms(rng)
+        ns = max(nt, len(op.get('symbols') or []))
+        if rng.random() < 0.5:
+            op['masses'] = gen_masses(rng, 0, ns if op.get('symbols') is not None else min(ns, 3))
+            if op.get('symbols') is None:
+                op['masses'] = op['masses'][:max(nt, len(op['masses']) and nt)]
+        return op
+    if kind in ('symget', 'massget', 'snatypes'):
+        return {'op': kind, 's': sh}
+    if kind == 'symset':
+        return {'op': 'symset', 's': sh, 'symbols': gen_syms(rng, 0, 5)}
+    if kind == 'massset':
+        s = S[sh]
+        nt = max(len(s._System__symbols), o_natypes(o))
+        return {'op': 'massset', 's': sh, 'masses': gen_masses(rng, 0, nt)}
+    raise RuntimeError(kind)
+
+
+def run_oracle_history(ops_or_gen, rng=None, length=0, ctx=None):
+    """run a history on the real code next to the record model; returns (ops executed, Violation|None)."""
+    W, O, OS = World(), {}, {}
+    ops = []
+    fixed = isinstance(ops_or_gen, list)
+    i = 0
+    while (i < len(ops_or_gen)) if fixed else (len(ops) < length):
+        if fixed:
+            op = ops_or_gen[i]
+        else:
+            op = gen_valid_op(rng, W, O, OS, i)
+        i += 1
+        if op['op'] == 'drop':
+            apply_drop(op, W)
+            ops.append(op)
+            continue
+        try:
+            # handles of removed operations (during shrinking)
+            for f in ('o', 'src'):
+                if f in op and isinstance(op[f], str) and op[f] not in W.atoms:
+                    raise KeyError(op[f])
+            if 's' in op and op['s'] not in W.syss:
+                raise KeyError(op['s'])
+            if op['op'] in ('sext', 'ixset'):
+                v = op.get('value') or op.get('src')
+                if v[0] == 'a' and v[1] not in W.atoms:
+                    raise KeyError(v[1])
+        except KeyError:
+            continue
+        ops.append(op)
+        pre_arrays = W.live_arrays()
+        try:
+            rep, created = exec_real(op, W)
+            if rep.startswith('err'):
+                raise Violation('valid-op-raised:' + op['op'],
+                                f"{op['op']} is a well-formed operation but raised {getattr(W, 'last_exc', rep)}")
+            for kind, hname, obj in created:
+                (W.atoms if kind == 'a' else W.syss)[hname] = obj
+                W.mid[hname] = 0
+            try:
+                out, written = oracle_apply(op, O, OS)
+            except (AssertionError, KeyError, IndexError, ValueError) as e:   # generator produced something the spec
+                return ops, Violation('oracle-internal', f'oracle cannot follow {op}: {e!r}')  # does not define
+            resync(W, O, written)
+            if op['op'] in ('pget', 'spget'):
+                got = real_rows(_np().asarray(W.last_out).reshape((len(out),) + (-1,))) if len(out) else []
+                if [tuple(r) for r in got] != [tuple(r) for r in out]:
+                    raise Violation('values:pget', f"prop({op['key']!r}, {op.get('ix')}) returned {got}, record model {out}")
+            check_clauses(op, W, O, OS, pre_arrays, out, created)
+        except Violation as v:
+            return ops, v
+        if ctx is not None:
+            ctx.stats.case('oracle:' + op['op'], json.dumps(op, sort_keys=True, default=str))
+    return ops, None
+
+
+def shrink_oracle(ops, key, budget=120):
+    ops = list(ops)
+    used = 0
+    changed = True
+    while changed and used < budget:
+        changed = False
+        for i in range(len(ops) - 2, -1, -1):
+            cand = ops[:i] + ops[i + 1:]
+            used += 1
+            done, v = run_oracle_history(cand)
+            if v is not None and v.key == key:
+                ops = done
+                changed = True
+                break
+            if used >= budget:
+                break
+    return ops
+
+
 def search(ctx, broken):
-    pass
+    rng = random.Random(ctx.seed * 7919 + 17)
+    nhist = ctx.n(150, 2500) * (3 if broken else 1)
+    found = set()
+    for hno in range(nhist):
+        ops, v = run_oracle_history(None, rng, rng.randint(4, 28), ctx)
+        if v is None:
+            continue
+        if v.key == 'oracle-internal':
+            raise cm.InfraError('C06 oracle: ' + v.what)
+        if v.key in found:
+            continue
+        found.add(v.key)
+        small = shrink_oracle(ops, v.key)
+        _, v2 = run_oracle_history(small)
+        v2 = v2 or v
+        ctx.violate(v.key, v2.what, {'op': 'oracle-history', 'ops': small, 'clause': v.key})
+        if len(found) >= 4:
+            break
+    ctx.extra['c06_oracle_histories'] = nhist
 
 
 def replay(ctx, payload):
@@ -917,6 +1591,13 @@ def replay(ctx, payload):
             ctx.disagree(e.key, e.what, r)
         else:
             print('replay: model and implementation agree on this history now')
+    elif r.get('op') == 'oracle-history':
+        ops, v = run_oracle_history(r['ops'])
+        if v is not None:
+            print('replay: still violates:', v.what)
+            ctx.violate(v.key, v.what, r)
+        else:
+            print('replay: the record model and the implementation agree on this history now')
     else:
         search(ctx, True)
 
